@@ -43,6 +43,9 @@ for line in open('/verif/properties.jsonl'):
     p = json.loads(line)
     props[p['id']] = p
 os.makedirs('/tmp/seed', exist_ok=True)
+WAVE2 = '''
+
+Additional requirement for this round: another engineer has already produced one seeded defect for this property (you do not know which). To maximise diversity, prefer a mechanism that is NOT the first thing that comes to mind: e.g. a defect in a helper / secondary code path (a different file than the most obvious one), an interaction between two options, state that leaks between calls or objects, an input format variant, a boundary between two regimes (first/last index, exactly-equal comparison, empty or single-element collections), or an error path that now returns silently. The same rules apply (tests must still pass, demo must fail/pass).'''
 for pid in sys.argv[1:]:
     tag = pid
     base = pid.split('-')[0]
@@ -56,5 +59,5 @@ for pid in sys.argv[1:]:
     open(f'/tmp/seed/{tag}.prompt', 'w').write(T.format(
         wt=wt, out=f'/tmp/seed/{tag}.out', id=p['id'], title=p['title'],
         statement=p['statement'], quant=p['quantifier']['text'],
-        files=', '.join(p['anchors']['files'])))
+        files=', '.join(p['anchors']['files'])) + (WAVE2 if '-' in pid else ''))
     print('prepared', wt)
